@@ -2,6 +2,7 @@ package service_account
 
 import (
 	"fmt"
+	"math/bits"
 
 	types "github.com/New-JAMneration/JAM-Protocol/internal/types"
 	utils "github.com/New-JAMneration/JAM-Protocol/internal/utilities"
@@ -186,12 +187,23 @@ func CalcThresholdBalance(aI types.U32, aO types.U64, aF types.U64) types.U64 {
 	/*
 		a_t ∈ N_B ≡ B_S + B_I*a_i + B_L*a_o
 	*/
-	storage := types.U64(types.BasicMinBalance) + types.U64(types.AdditionalMinBalancePerItem)*types.U64(aI) + types.U64(types.AdditionalMinBalancePerOctet)*aO
-	if storage < aF {
+	// the raw threshold can exceed 64 bits (a_o ranges over N_2^64): keep it as hi*2^64 + sum so
+	// that max(0, raw - a_f) is exact whenever it is representable
+	hi, items := bits.Mul64(uint64(types.AdditionalMinBalancePerItem), uint64(aI))
+	octHi, oct := bits.Mul64(uint64(types.AdditionalMinBalancePerOctet), uint64(aO))
+	sum, c1 := bits.Add64(items, oct, 0)
+	sum, c2 := bits.Add64(sum, uint64(types.BasicMinBalance), 0)
+	hi += octHi + c1 + c2
+	lo, borrow := bits.Sub64(sum, uint64(aF), 0)
+	if hi == 0 && borrow != 0 {
 		// result < 0
 		return 0
 	}
-	return storage - aF
+	if hi-borrow != 0 {
+		// not representable in N_B: saturate (no balance can reach it)
+		return ^types.U64(0)
+	}
+	return types.U64(lo)
 }
 
 /*
